@@ -3,9 +3,11 @@ package main
 import (
 	"context"
 	"fmt"
+	"runtime"
 	"sort"
 	"strings"
 	"sync"
+	"sync/atomic"
 	"time"
 
 	proto "github.com/kubewharf/kubebrain-client/api/v2rpc"
@@ -43,6 +45,10 @@ type backendSuite struct {
 
 	hmu   sync.Mutex
 	hooks map[string]*hookGate
+	// C05: a probe watcher (cfg probe=1) that counts the events the hub has fanned out — what `sync` and
+	// `fill` wait on
+	probe      bool
+	probeCount int64
 
 	// scanner-level access (C07/C13/C17): a scanner built directly over the wrapped store
 	sc scanner.Scanner
@@ -90,6 +96,16 @@ func newBackendSuite(opts map[string]string) *backendSuite {
 		init = atou(v)
 	}
 	s.b.SetCurrentRevision(init)
+	if opts["probe"] == "1" {
+		if ch, err := s.b.Watch(context.Background(), "", 0); err == nil {
+			s.probe = true
+			go func() {
+				for b := range ch {
+					atomic.AddInt64(&s.probeCount, int64(len(b)))
+				}
+			}()
+		}
+	}
 	return s
 }
 
@@ -198,7 +214,17 @@ func (s *backendSuite) runOp(ctx context.Context, b backend.Backend, t []string)
 		}
 		return fmt.Sprintf("delete cf %d %s", resp.Header.Revision, kvStr(resp.Kv))
 	case "get":
-		resp, err := b.Get(ctx, &proto.GetRequest{Key: unhx(pos[1]), Revision: atou(pos[2])})
+		// revision token `c`, `c+N`: relative to the committed revision at this moment
+		rev := uint64(0)
+		if strings.HasPrefix(pos[2], "c") {
+			rev = b.GetCurrentRevision()
+			if len(pos[2]) > 2 {
+				rev += atou(pos[2][2:])
+			}
+		} else {
+			rev = atou(pos[2])
+		}
+		resp, err := b.Get(ctx, &proto.GetRequest{Key: unhx(pos[1]), Revision: rev})
 		if err != nil {
 			return "get err " + classify(err)
 		}
@@ -374,19 +400,19 @@ func (s *backendSuite) do(t []string) string {
 			w.cancel()
 		}
 		return "cancel " + pos[1]
-	case "fill":
-		// fill <n> <keyprefix> <val>: n sequential creates of keyprefix + 5-digit counter (bulk data)
+	case "bulk":
+		// bulk <n> <keyprefix> <val>: n sequential creates of keyprefix + 5-digit counter (bulk data)
 		n := atoi(pos[1])
 		var last uint64
 		for i := 0; i < n; i++ {
 			key := append(append([]byte{}, unhx(pos[2])...), []byte(fmt.Sprintf("%05d", i))...)
 			resp, err := s.b.Create(ctx, &proto.CreateRequest{Key: key, Value: unhx(pos[3])})
 			if err != nil || !resp.Succeeded {
-				return fmt.Sprintf("fill failed-at %d", i)
+				return fmt.Sprintf("bulk failed-at %d", i)
 			}
 			last = resp.Header.Revision
 		}
-		return fmt.Sprintf("fill %d", last)
+		return fmt.Sprintf("bulk %d", last)
 	case "stress":
 		// stress <clients> <ops> <key,key,...>: free-running concurrent guarded writers on shared keys
 		// (no gates: the engine's own transaction isolation is exercised). Prints every acknowledged
@@ -477,7 +503,7 @@ func (s *backendSuite) do(t []string) string {
 			l = strings.Join(parts, ",")
 		}
 		return fmt.Sprintf("stress %s final=%s", l, strings.Join(finals, ","))
-	case "sync":
+	case "settle":
 		// wait (bounded) until the committed revision has been stable for 20 ms — for runs whose
 		// revisions are wall-clock values the model cannot predict
 		last := s.b.GetCurrentRevision()
@@ -492,7 +518,7 @@ func (s *backendSuite) do(t []string) string {
 				last, stable = cur, time.Now()
 			}
 		}
-		return "sync ok"
+		return "settle ok"
 	case "reupdate":
 		// guarded update conditioned on the revision a fresh Get reports (for wall-clock revisions)
 		g, err := s.b.Get(ctx, &proto.GetRequest{Key: unhx(pos[1])})
@@ -560,6 +586,132 @@ func (s *backendSuite) do(t []string) string {
 			return "dellog -"
 		}
 		return "dellog " + strings.Join(s.c.delLog, ",")
+
+	// ----- C05: watch registration as its own thread, single-batch receive, bulk writes, pipeline sync -----
+	case "startw":
+		// startw <cid> <id> <prefix> <rev>: Backend.Watch runs in its own goroutine (up to its first armed
+		// yield point, or to completion); the op returns at once; `join <cid>` collects the outcome
+		cid, id, pfx, rev := pos[1], pos[2], string(unhx(pos[3])), atou(pos[4])
+		go func() {
+			wctx, cancel := context.WithCancel(ctx)
+			wch, err := s.b.Watch(wctx, pfx, rev)
+			line := "watch " + id + " ok"
+			if err != nil {
+				cancel()
+				line = "watch " + id + " refused"
+			} else {
+				s.hmu.Lock()
+				s.watchers[id] = &watcher{ch: wch, cancel: cancel}
+				s.hmu.Unlock()
+			}
+			s.c.arrived <- arrival{cid: cid, done: true, line: line}
+		}()
+		return "startw " + cid
+	case "join":
+		d := 30 * time.Second
+		if opts["want"] == "stuck" {
+			d = 100 * time.Millisecond
+		}
+		return s.awaitClientFor(pos[1], d)
+	case "take":
+		// one receive from the watch channel (expected-guided: want=<n events> closed=<0|1>)
+		s.hmu.Lock()
+		w := s.watchers[pos[1]]
+		s.hmu.Unlock()
+		if w == nil {
+			return "batch " + pos[1] + " nowatch"
+		}
+		d := s.wait
+		if opts["want"] == "0" && opts["closed"] == "0" {
+			d = 30 * time.Millisecond
+		}
+		select {
+		case b, ok := <-w.ch:
+			if !ok {
+				w.closed = true
+				return "batch " + pos[1] + " - closed=1"
+			}
+			evs := make([]string, len(b))
+			for i, e := range b {
+				evs[i] = evStr(e)
+			}
+			return "batch " + pos[1] + " " + strings.Join(evs, ",") + " closed=0"
+		case <-time.After(d):
+			return "batch " + pos[1] + " - closed=0"
+		}
+	case "fill":
+		// fill <n> <keyprefix> <val>: n sequential creates of keyprefix+%05d, each one broadcast as a batch of
+		// its own: the sequencer is made to park at "seq.before_broadcast" after every create (it parks only
+		// after it has found no further slot, i.e. with a one-event batch) and is released before the next.
+		// Must not be used while the script itself has a seq.* gate armed.
+		n, kp, val := atoi(pos[1]), unhx(pos[2]), unhx(pos[3])
+		const gname = "seq.before_broadcast"
+		s.hmu.Lock()
+		for _, gn := range []string{"seq.before_cache", gname} {
+			if g := s.hooks[gn]; g != nil && (g.armed || len(g.waiting) > 0) {
+				s.hmu.Unlock()
+				return "fill bad-state"
+			}
+		}
+		g := s.hooks[gname]
+		if g == nil {
+			g = &hookGate{}
+			s.hooks[gname] = g
+		}
+		g.armed = true
+		s.hmu.Unlock()
+		defer func() {
+			s.hmu.Lock()
+			g.armed = false
+			for _, ch := range g.waiting {
+				close(ch)
+			}
+			g.waiting = nil
+			s.hmu.Unlock()
+		}()
+		var last uint64
+		for i := 0; i < n; i++ {
+			key := append(append([]byte{}, kp...), []byte(fmt.Sprintf("%05d", i))...)
+			resp, err := s.b.Create(ctx, &proto.CreateRequest{Key: key, Value: val})
+			if err != nil || !resp.Succeeded {
+				return fmt.Sprintf("fill err %d", i)
+			}
+			last = resp.Header.Revision
+			deadline := time.Now().Add(s.wait)
+			for spins := 0; ; spins++ {
+				s.hmu.Lock()
+				var ch chan struct{}
+				if len(g.waiting) > 0 {
+					ch = g.waiting[0]
+					g.waiting = g.waiting[1:]
+				}
+				s.hmu.Unlock()
+				if ch != nil {
+					close(ch)
+					break
+				}
+				if spins < 256 {
+					runtime.Gosched()
+				} else {
+					time.Sleep(20 * time.Microsecond)
+				}
+				if spins%256 == 255 && !time.Now().Before(deadline) {
+					return fmt.Sprintf("fill stuck %d", i)
+				}
+			}
+		}
+		return fmt.Sprintf("fill ok %d", last)
+	case "sync":
+		// sync want=<p>: wait (bounded) until the probe watcher has received <p> events, i.e. the hub has
+		// fanned out everything the model says it has (the events are then in the cache as well)
+		if w, ok := opts["want"]; ok {
+			wp := int64(atoi(w))
+			deadline := time.Now().Add(s.wait)
+			for atomic.LoadInt64(&s.probeCount) != wp && time.Now().Before(deadline) {
+				time.Sleep(100 * time.Microsecond)
+			}
+		}
+		return fmt.Sprintf("sync %d", atomic.LoadInt64(&s.probeCount))
 
 	// ----- scheduled mode -----
 	case "gated":
@@ -695,8 +847,10 @@ func (s *backendSuite) maxStoredRevision() uint64 {
 }
 
 // awaitClient waits for the next event (gate arrival or completion) of client cid.
-func (s *backendSuite) awaitClient(cid string) string {
-	timeout := time.After(30 * time.Second)
+func (s *backendSuite) awaitClient(cid string) string { return s.awaitClientFor(cid, 30*time.Second) }
+
+func (s *backendSuite) awaitClientFor(cid string, d time.Duration) string {
+	timeout := time.After(d)
 	var stash []arrival
 	defer func() {
 		for _, a := range stash {
